@@ -30,8 +30,8 @@ fn values_for(which: &str) -> Vec<(Value, Form)> {
     }
     if which == "quick" {
         // Unicode string, "", -1, null, nested array, struct, f32, object with one member named like the key
-        // ... and an application-defined one-field claim
-        [0usize, 1, 3, 5, 9, 11, 15, 16, 18].iter().map(|i| all[*i].clone()).collect()
+        // ... an application-defined one-field claim and a value that reads mutable state when serialised
+        [0usize, 1, 3, 5, 9, 11, 15, 16, 18, 21].iter().map(|i| all[*i].clone()).collect()
     } else {
         all
     }
@@ -223,11 +223,65 @@ pub fn run(tier: &str) -> i32 {
         all.merge(Acc::merge_all(accs));
     }
 
+    // ---- long histories: one key set N times (the last value wins), set N times then removed (absent), and N
+    //      distinct keys (all present), for N on both sides of powers of two
+    {
+        use crate::adapter::{BEvent, BOp, ClaimSpec, Layer, Out, PEvent, POp};
+        let counts: Vec<usize> = if quick { vec![2, 3, 127, 128, 129, 255, 256, 257, 511, 512, 513, 65_535, 65_536, 65_537] } else { (2..=1_030).chain([4_095, 4_096, 4_097, 65_535, 65_536, 65_537, 131_072, 131_073]).collect() };
+        let units: Vec<(Proto, usize)> = [Proto::V4L, Proto::V2P].iter().flat_map(|p| counts.iter().map(move |n| (*p, *n))).collect();
+        let accs = par_units(&units, |(p, n)| {
+            let mut acc = Acc::default();
+            crate::adapter::freeze_default_clock();
+            let key = crate::domains::key_pool(*p)[0].clone();
+            let parse = |t: &str| match crate::adapter::parse_history(*p, Layer::Generic, false, &[key.pk.clone()], &[t.to_string()], &[POp::Parse(0, 0)]).last() {
+                Some(PEvent::Parsed(Out::Ok(v), _)) => Some(v.clone()),
+                _ => None,
+            };
+            let mut histories: Vec<(&str, Vec<BOp>, Value)> = Vec::new();
+            let mut ops: Vec<BOp> = vec![BOp::Claim(ClaimSpec::auto("other", json!(1)))];
+            ops.extend((0..*n).map(|i| BOp::Claim(ClaimSpec::auto("role", json!(i)))));
+            ops.push(BOp::Build);
+            histories.push(("same key set N times", ops.clone(), json!({"other": 1, "role": *n - 1})));
+            ops.pop();
+            ops.push(BOp::Remove("role".into()));
+            ops.push(BOp::Build);
+            histories.push(("same key set N times, then removed", ops, json!({"other": 1})));
+            if *n <= 1_030 || *n == 65_537 {
+                let ops: Vec<BOp> = (0..*n).map(|i| BOp::Claim(ClaimSpec::auto(&format!("k{}", i), json!(i)))).chain([BOp::Build]).collect();
+                let want: serde_json::Map<String, Value> = (0..*n).map(|i| (format!("k{}", i), json!(i))).collect();
+                histories.push(("N distinct keys", ops, Value::Object(want)));
+            }
+            for (name, ops, want) in histories {
+                let (ev, _) = crate::adapter::with_rng_script(vec![vec![3u8; 32]], || crate::adapter::build_history(*p, Layer::Generic, &key.sk, &ops));
+                acc.executions += 1;
+                acc.choice_points += 1;
+                acc.see(&(p.name(), n, name));
+                let panicked = ev.iter().find_map(|e| if let BEvent::Built(Out::Panic(l)) = e { Some(l.clone()) } else { None });
+                let got = match ev.last() {
+                    Some(BEvent::Built(Out::Ok(t))) => parse(t),
+                    _ => None,
+                };
+                if got.as_ref() == Some(&want) {
+                    acc.bump("long-history:conforms");
+                } else {
+                    let shown = |v: &Value| { let t = v.to_string(); if t.len() > 100 { format!("{}...", t.chars().take(100).collect::<String>()) } else { t } };
+                    acc.violate(
+                        format!("C14|{}|long-history|{}", p.name(), if panicked.is_some() { "panic" } else { "different-claims" }),
+                        format!("{} (N = {}): {} - parsed {}, expected {}", name, n, panicked.map_or("no panic".to_string(), |l| format!("panic at {}", l)), got.as_ref().map_or("nothing (build or parse failed)".to_string(), shown), shown(&want)),
+                        json!({"hostile_key": format!("long-history {} {}", name, n)}),
+                    );
+                }
+            }
+            acc
+        });
+        all.merge(Acc::merge_all(accs));
+    }
+
     all.executions += REPLAYS.load(Ordering::Relaxed);
     all.impl_calls = all.executions * 2;
     all.controls_ok = *all.hist.get("sequence:conforms").unwrap_or(&0);
     let extra = json!({
-        "space": "reachable states of the GenericBuilder reference model (claim key -> last value, absent after remove) over custom keys with quotes/newline/non-BMP/Cyrillic/blank, a 21-element JSON value alphabet (Unicode string, empty, ints incl. u64::MAX, 1.5, bool, null, arrays, depth-5 object, native struct/Option/map/f32, an object whose single member is named like its claim key), 3 constructor forms, remove_claim, and the 7 typed registered claims; plus unmerged sequences",
+        "space": "reachable states of the GenericBuilder reference model (claim key -> last value, absent after remove) over custom keys with quotes/newline/non-BMP/Cyrillic/blank, a 22-element JSON value alphabet (Unicode string, empty, ints incl. u64::MAX, 1.5, bool, null, arrays, depth-5 object, native struct/Option/map/f32, an object whose single member is named like its claim key, a value that reads mutable state when serialised), 3 constructor forms, remove_claim, and the 7 typed registered claims; plus unmerged sequences",
         "model_runs": model_runs,
         "unmerged_sequence_depth": depth,
         "unmerged_sequences": seq_exec,
